@@ -66,7 +66,8 @@ ImportStmt(mn, form) ==
       [] form = "rebind" -> <<From(LS(NT.t3), <<mn>>, <<mn>>), From(LS(NT.t1), <<mn>>, <<mn>>)>>
       [] form = "fromshadow" -> <<From(LS(NT.t1), <<mn>>, <<mn>>), Import(LS(NT.t3), "L")>>
       [] OTHER -> <<>>
-OtherLib(mn) == <<Macro(mn, <<Param("a"), Param("b"), Param("c")>>, <<T(<<79, 84, 72, 69, 82>>)>>)>>     \* prints OTHER
+OtherLib(mn) == <<Macro(mn, <<Param("a"), Param("b"), Param("c")>>, <<T(<<79, 84, 72, 69, 82>>)>>),     \* prints OTHER
+                  Macro("hh", <<Param("v")>>, <<T(<<79, 72>>)>>)>>                                            \* a helper of the same name: OH
 IsLocalForm(form) == form \in {"local", "self", "localshadow", "selfshadow"}
 
 \* the caller's probe after the call: assignments in the body are invisible
@@ -96,7 +97,9 @@ Tp(c, form) ==
     LET ce == CallExpr(MName(c), form, ArgsOfF(c, form))
         \* use = "expr": the call inside larger expressions means the text it renders
         call == IF "use" \in DOMAIN c /\ c.use = "expr"
-                THEN <<PrintS(Filt("upper", ce, <<>>)), PrintS(Bin("~", ce, LS(<<122>>))), Set("q", ce), PrintS(Var("q")), PrintS(Filt("length", ce, <<>>))>>
+                THEN <<PrintS(Filt("upper", ce, <<>>)), PrintS(Bin("~", ce, LS(<<122>>))), Set("q", ce), PrintS(Var("q")), PrintS(Filt("length", ce, <<>>)),
+                       \* the name alone is no call: there is no such variable
+                       T(<<40>>), PrintS(Var(MName(c))), PrintS(Filt("default", Var(MName(c)), <<LS(<<122>>)>>)), T(<<41>>)>>
                 ELSE <<PrintS(ce)>> IN
     IF c.site = "include" THEN
         ("main" :> Site(c, form, <<>>))
@@ -148,6 +151,25 @@ CaseOf(c) ==
                 : f \in {g \in Forms : FormApplies(c, g)}},
      expect |-> [ok |-> ref.ok, out |-> ref.out, err |-> ref.err, calls |-> [id \in {"d1", "d2"} |-> CountOf(ref.calls, id)]]]
 
+\* ---- one name, from-imported from the other library AND defined by the template itself -------------------------------------
+\* Which of the two the name then means is stated nowhere.  Either way the macro that runs is one macro: the template's own
+\* (and what it calls are the template's own macros) or the library's (with the library's) -- never the body of one with the
+\* siblings of the other.  Expectation: the first; alternative accepted: the second.
+ClashCases == {[clash |-> order, ar |-> 1, defs |-> {}, n |-> 1, bk |-> bk, site |-> site, argstyle |-> "plain"]
+                 : order \in {"fromfirst", "localfirst"}, bk \in {"print", "nested"}, site \in {"top", "loop", "block", "if"}}
+ClashCall(c) == <<PrintS(CallExpr("mm", "local", ArgsOfF(c, "local")))>>
+ClashTp(c) == ("main" :> (IF c.clash = "fromfirst" THEN <<From(LS(NT.t3), <<"mm">>, <<"mm">>)>> \o Defs(c) ELSE Defs(c) \o <<From(LS(NT.t3), <<"mm">>, <<"mm">>)>>)
+                         \o Site(c, "local", ClashCall(c)))
+              @@ ("t3" :> OtherLib("mm"))
+LibOnlyTp(c) == ("main" :> <<From(LS(NT.t3), <<"mm">>, <<"mm">>)>> \o Site(c, "local", ClashCall(c))) @@ ("t3" :> OtherLib("mm"))
+CaseOfClash(c) ==
+    LET own == Ref(c, "local")
+        lib == Render(World(LibOnlyTp(c)), "main", Ctx) IN
+    [prop |-> "C12", key |-> ToJson(c), tags |-> {"clash:" \o c.clash, "body:" \o c.bk, "site:" \o c.site}, entry |-> "main", ctx |-> Ctx,
+     runs |-> {[label |-> "clash", tp |-> Sources(ClashTp(c), LMin), xcalls |-> [id \in {} |-> 0], again |-> 1, alt |-> lib.out]},
+     expect |-> [ok |-> TRUE, out |-> own.out, err |-> "", calls |-> [id \in {} |-> 0]]]
+ClashModelOK(c) == Ref(c, "local").ok /\ Render(World(LibOnlyTp(c)), "main", Ctx).ok /\ Ref(c, "local").out # Render(World(LibOnlyTp(c)), "main", Ctx).out
+
 \* ---- macros that call themselves / each other to a depth of n: every level binds its own argument -------------------------
 \* (the expectation is written down directly: n, n-1, ... 0 separated by dots)
 DeepNs == {3, 31, 32, 33, 34, 64, 100}
@@ -171,9 +193,9 @@ CaseOfDeep(c) ==
 DeepAgrees == \A f \in DeepForms : Render(World(DeepTp([deep |-> 2, form |-> f])), "main", Ctx).out = CountDown(2)
 ASSUME DeepAgrees
 
-Init == cs \in DeepCases \cup {c \in Cases \cup NamedCases \cup SpyDefCases \cup ExprCases : Valid(c) /\ Ref(c, "local").ok}
+Init == cs \in DeepCases \cup ClashCases \cup {c \in Cases \cup NamedCases \cup SpyDefCases \cup ExprCases : Valid(c) /\ Ref(c, "local").ok}
 Next == UNCHANGED cs
 Spec == Init /\ [][Next]_cs
-Emit == PrintT(ToJson(IF "deep" \in DOMAIN cs THEN CaseOfDeep(cs) ELSE CaseOf(cs)))
-ModelOK == "deep" \in DOMAIN cs \/ FormsAgree(cs)
+Emit == PrintT(ToJson(IF "deep" \in DOMAIN cs THEN CaseOfDeep(cs) ELSE IF "clash" \in DOMAIN cs THEN CaseOfClash(cs) ELSE CaseOf(cs)))
+ModelOK == "deep" \in DOMAIN cs \/ (IF "clash" \in DOMAIN cs THEN ClashModelOK(cs) ELSE FormsAgree(cs))
 =============================================================================
